@@ -1656,6 +1656,16 @@ static Type check_expression_impl(ASTNode *expr, Environment *env) {
             if (func->params) {
                 for (int i = 0; i < expr->as.call.arg_count; i++) {
                     ASTNode *arg = expr->as.call.args[i];
+
+                    /* An empty array literal has no element type of its own: it takes the one of
+                     * the array parameter it is passed to (as `let a: array<bool> = []` does), so
+                     * that the native backend creates an array of the right kind */
+                    if (func->params[i].type == TYPE_ARRAY && arg->type == AST_ARRAY_LITERAL &&
+                        arg->as.array_literal.element_count == 0 &&
+                        arg->as.array_literal.element_type == TYPE_UNKNOWN &&
+                        func->params[i].element_type != TYPE_UNKNOWN) {
+                        arg->as.array_literal.element_type = func->params[i].element_type;
+                    }
                     
                     /* Special handling for function-typed parameters */
                     if (func->params[i].type == TYPE_FUNCTION) {
